@@ -182,8 +182,48 @@ func (c *checkCtx) check() int {
 	if c.Plan.Race {
 		refBin = c.Build.Worker
 	}
-	bt := runBatch(c.bin(), refBin, c.baseJob(), total, c.Plan.Procs, c.Scratch, "main", timeout)
+	var bt *batch
+	failFast := os.Getenv("GCSIM_FAILFAST") != ""
+	if failFast {
+		// regression aid (seeded/run_all.sh): the main batch runs in eight slices and stops after the
+		// first slice that shows a violation; the other legs are skipped then. Never used by the
+		// registered commands.
+		bt = &batch{}
+		for sl := 0; sl < 8; sl++ {
+			lo, hi := total*sl/8, total*(sl+1)/8
+			if hi <= lo {
+				continue
+			}
+			part := runBatchRange(c.bin(), refBin, c.baseJob(), lo, hi, c.Plan.Procs, c.Scratch, fmt.Sprintf("main%d", sl), timeout)
+			bt.Results = append(bt.Results, part.Results...)
+			bt.Procs = append(bt.Procs, part.Procs...)
+			bt.Harness = append(bt.Harness, part.Harness...)
+			bt.WallS += part.WallS
+			bt.Restarts += part.Restarts
+			bt.WorkersN = part.WorkersN
+			found := len(part.Harness) > 0
+			for _, r := range part.Results {
+				if r.Verdict == "violation" {
+					found = true
+				}
+			}
+			if found {
+				total = hi
+				break
+			}
+		}
+	} else {
+		bt = runBatch(c.bin(), refBin, c.baseJob(), total, c.Plan.Procs, c.Scratch, "main", timeout)
+	}
 	fmt.Printf("gcsim: %d runs in %.1fs on %d workers (%d restarts)\n", len(bt.Results), bt.WallS, bt.WorkersN, bt.Restarts)
+	ffViolation := false
+	if failFast {
+		for _, r := range bt.Results {
+			if r.Verdict == "violation" {
+				ffViolation = true
+			}
+		}
+	}
 	if len(bt.Harness) > 0 {
 		for _, h := range bt.Harness {
 			fmt.Fprintln(os.Stderr, "gcsim: HARNESS:", h)
@@ -204,7 +244,7 @@ func (c *checkCtx) check() int {
 		fmt.Fprintln(os.Stderr, "gcsim: HARNESS:", msg)
 		return 2
 	}
-	if c.ID == "C02" {
+	if c.ID == "C02" && !ffViolation {
 		// cross-process leg with the shipped binary as real processes
 		if err := buildFrontends(c.Build); err != nil {
 			fmt.Fprintln(os.Stderr, "gcsim: build trouble:", err)
@@ -234,7 +274,7 @@ func (c *checkCtx) check() int {
 		bt.Results = append(bt.Results, rr...)
 		total += len(rr)
 	}
-	if c.ID == "C03" {
+	if c.ID == "C03" && !ffViolation {
 		// command-line leg: order and grouping of the packages named on the command line, real processes
 		if err := buildFrontends(c.Build); err != nil {
 			fmt.Fprintln(os.Stderr, "gcsim: build trouble:", err)
@@ -258,7 +298,7 @@ func (c *checkCtx) check() int {
 		bt.Results = append(bt.Results, gr...)
 		total += len(gr)
 	}
-	if c.ID == "C19" {
+	if c.ID == "C19" && !ffViolation {
 		// second engine: the real front-end binaries on faulted configurations and workspaces
 		if err := buildFrontends(c.Build); err != nil {
 			fmt.Fprintln(os.Stderr, "gcsim: build trouble:", err)
@@ -280,7 +320,10 @@ func (c *checkCtx) check() int {
 
 	// same-seed cross-process leg: determinism of the simulator itself, and
 	// (for C02) of go-critic across processes
-	xp := c.crossProcess(bt)
+	xp := &xprocResult{}
+	if !ffViolation {
+		xp = c.crossProcess(bt)
+	}
 	if xp.harness != "" {
 		fmt.Fprintln(os.Stderr, "gcsim: HARNESS:", xp.harness)
 		return 2
@@ -340,7 +383,7 @@ func (c *checkCtx) check() int {
 			}
 		} else if rp.Run.Config != nil {
 			minimised++
-			c.minimiseAndConfirm(rp, minimised <= 3)
+			c.minimiseAndConfirm(rp, minimised <= 3 && !failFast)
 		}
 		path := c.writeReplay(rp)
 		fmt.Printf("VIOLATION property=%s replay=%s\n", c.ID, path)
